@@ -91,8 +91,11 @@ func (rl *ruleLoader) commentTextEnd(lex lexeme.LexEvent) {
 		// A note on a line without EXAMPLE doesn't belong to any node (the same
 		// way a RULE can't be placed there), so it shouldn't be given to the
 		// last added node, which is unrelated to it and may have its own note.
-		if rl.node != nil && rl.nodesPerCurrentLineCount != 0 {
-			rl.node.SetComment(lex.Value().TrimSpaces().String())
+		// An annotation without text (`//` before a line break, `/**/`) has no
+		// note to give, so it shouldn't wipe the note the node already has.
+		text := lex.Value().TrimSpaces().String()
+		if rl.node != nil && rl.nodesPerCurrentLineCount != 0 && text != "" {
+			rl.node.SetComment(text)
 		}
 		rl.stateFunc = rl.endOfLoading
 	default:
